@@ -457,6 +457,44 @@ def rule_baseline_singular(chk, prog):
 
 
 # ----------------------------------------------------------------------------
+# rule 8: read slot == write slot for spin-resolved inputs and their derivative buffers
+# ----------------------------------------------------------------------------
+def rule_slot_pairing(chk, prog):
+    done = set()
+    n = 0
+    for rel, cname in LADDER_CLASSES:
+        mod = prog.module(rel)
+        for m, c in prog.mro(mod, mod.cls(cname)):
+            for mname, fn in pf.methods(c).items():
+                if id(fn) in done:
+                    continue
+                done.add(id(fn))
+                for rec in er.slot_pairing(fn):
+                    n += 1
+                    where = "%s.%s" % (c.name, mname)
+                    rs = {s_ for s_, _ in rec["reads"]}
+                    ws = {s_ for s_, _ in rec["writes"]}
+                    inst = "%s: slots of `%s` read == slots of its derivative buffer written" % (where, rec["template"])
+                    if rs == ws:
+                        chk.ok("slot-pairing", inst, detail="slot(s) %s" % sorted(rs))
+                        continue
+                    bad = next((nd for s_, nd in rec["reads"] if s_ not in ws), None)
+                    if bad is None:
+                        bad = next(nd for s_, nd in rec["writes"] if s_ not in rs)
+                    stmt = bad
+                    while not isinstance(stmt, ast.stmt):
+                        stmt = pf.parent(stmt)
+                    chk.violation("slot-pairing", m.rel, where, pf.src(stmt).splitlines()[0][:110], bad.lineno,
+                                  "inside `for %s in %s`, `%s` is read at slot(s) %s but the buffer created as "
+                                  "zeros_like(%s), which receives the derivative with respect to it, is written at "
+                                  "slot(s) %s: the derivative stored for a spin channel is not the derivative with "
+                                  "respect to the input that was evaluated" % (
+                                      rec["loop"].target.id, pf.src(rec["loop"].iter), rec["template"], sorted(rs),
+                                      rec["template"], sorted(ws)), instance=inst)
+    chk.count("input/derivative-buffer slot pairs", n)
+
+
+# ----------------------------------------------------------------------------
 # rule 6: mode ladders
 # ----------------------------------------------------------------------------
 LADDER_CLASSES = ((XE, "KernelEvalBase"), (XE, "MappedDFTKernel"), (XE2, "KernelEvalBase2"),
@@ -547,6 +585,10 @@ def _analyse_own(chk):
         c_, prog, list(LADDER_CLASSES) + [(m_.rel, k_.name) for m_, k_ in evaluator_classes(prog)]))
     chk.floor("stale-loop-var", 4, "methods with loops in the evaluator base classes and FuncEvaluator subclasses")
     chk.guard(rule_mode_ladders, prog)
+    chk.rule("slot-pairing", "spin loops: the slot of an input array that is read and the slot of its zeros_like "
+                             "derivative buffer that is written are the same expression of the loop variable")
+    chk.guard(rule_slot_pairing, prog)
+    chk.floor("slot-pairing", 2, "rho, sigma, tau of the per-spin libxc baseline")
     chk.guard(rule_baseline_degree, prog)
     chk.rule("singular-override", "native baselines: no output carries a singular factor after the masked override "
                                   "that repairs it (rule shared with C08: a derivative made singular again is not "
@@ -604,6 +646,11 @@ def mutants(tree):
                "            res[:] += y * self.scale[t]\n            dres[:, ind_set] += dy * self.scale[t]\n",
                "            res[:] += y * self.scale[t]\n        dres[:, ind_set] += dy * self.scale[t]\n",
                expect="stale-loop-var"),
+        Mutant("per-spin baseline: sigma read at slot s, derivative written at slot 2*s", XE2,
+               "tuple_s.append(4 * rho_tuple[1][2 * s : 2 * s + 1])", "tuple_s.append(4 * rho_tuple[1][s : s + 1])",
+               expect="slot-pairing"),
+        Mutant("per-spin baseline: sigma derivative written at slot s", XE2,
+               "sep_res[2][2 * s] = 2 * res[2]", "sep_res[2][s] = 2 * res[2]", expect="slot-pairing"),
         Mutant("linear evaluator overwrites res", XE, "res[:] += X1.dot(self.consts)", "res[:] = X1.dot(self.consts)",
                expect="accumulate-py"),
         Mutant("spline evaluator overwrites dres columns", XE, "dres[:, ind_set] += dy * self.scale[t]",
